@@ -1,4 +1,5 @@
 """C34 Atomic acknowledgements imply read-after-write (engine HydroB)."""
+from props import sim_e2e
 from tools import hydrob, vlib
 
 
@@ -22,7 +23,10 @@ class C34(vlib.Spec):
         "simulator hook objects and the real run_hooks (harness h_sim, scripted bolero driver) over multi-round "
         "random arrival/decision scripts, compared with Sim.Model.run_hooks. Residual trust: that SimBuilder wires "
         "begin_atomic as a batch hook, end_atomic as yield_from_tick and an Atomic-input batch as the identity "
-        "(read from sim/builder.rs, flow.sim() itself is not executed).")
+        "(read from sim/builder.rs); (c) end to end through flow.sim(): a compiled simulation (harness/h_sim/e2e, "
+        "program atomic_keyed: keyed writes with unordered values through .atomic(), acks from end_atomic(), state in a "
+        "sliced! region fed by use::atomic, a read released after the ack) explored by the real CompiledSim::exhaustive; "
+        "in every explored execution the read observed after an ack must include the acknowledged write.")
     trusted_base = ["coqc 8.16.1 kernel (vm_compute for case evaluation only)",
                     "hand-written Gallina model coq/theories/HydroB/ModelAtomic.v",
                     "harness/h_hydro_b (production embedded code generation + tick driver), tools/hydrob.py"]
@@ -102,4 +106,18 @@ class C34(vlib.Spec):
 def main(ctx):
     spec = C34()
     spec.ctx = ctx
+    orig = vlib.finish
+
+    def fin(c, level, coverage, assumptions, extra=None):
+        # end-to-end phase: the simulator's own graph builder (SimBuilder) on a compiled atomic program
+        if not c.replay:
+            summary, bad = sim_e2e.run_c34(c)
+            coverage.update(summary)
+            for case, res, v in bad[:2]:
+                path = vlib.write_replay(c, {"property": c.prop, "kind": "e2e read-after-ack violated",
+                                             "case": case, "impl": res, "verdict": v})
+                c.violations.append((path, "" if v & 2 else "no-failing-input-found"))
+        return orig(c, level, coverage, assumptions, extra)
+
+    vlib.finish = fin
     vlib.standard_check(ctx, spec)
